@@ -73,7 +73,8 @@ Inductive undo :=
 | USolverAddVars (r : Z)                  (* solver.add([forward, reverse]) *)
 | USolverRemoveCons (m : Z)               (* solver.remove([constraint m]) *)
 | USolverAddCons (m : Z)
-| UMetsISub (m : Z)                       (* model.metabolites -= [m]  and  m._model = None *)
+| UMetsISub (m : Z)                       (* model.metabolites -= [m]  and  m._model = None; the object that
+                                             leaves was new in this context and is never seen again *)
 | UMetsIAdd (m : Z)                       (* model.metabolites += [m]  and  m._model = model *)
 | URxnOut (r : Z)                         (* model.reactions -= [r]  and  r._model = None *)
 | URxnIn (r : Z)                          (* model.reactions.add(r)   and  r._model = model *)
@@ -135,10 +136,12 @@ Definition rctx (s : st) (r : Z) : bool := in_ctx s && rin s r.
 (* ---------- solver primitives (optlang container semantics cobrapy relies on) ---------- *)
 (* Variable.set_bounds on an attached variable *)
 Definition var_set_bounds (n : name) (l u : eb) (s : st) : st := set_vb s (updn (vlb s) n l) (updn (vub s) n u).
-(* solver.remove(variable): the column disappears from every row and from the objective;
-   the Python Variable object keeps its lb/ub                                           *)
+(* solver.remove(variable): the column disappears from every row and from the objective.  The bounds
+   kept by the detached Python Variable object are not modelled (canonical default): whenever
+   cobrapy re-adds such a variable, _populate_solver sets its bounds again before anyone looks.  *)
 Definition solver_remove_var (n : name) (s : st) : st :=
-  let s1 := set_vin s (updn (vin s) n false) in
+  let s0 := set_vb s (updn (vlb s) n NInf) (updn (vub s) n PInf) in
+  let s1 := set_vin s0 (updn (vin s0) n false) in
   let s2 := set_co s1 (fun m n' => if name_eqb n' n then q0 else co s1 m n') in
   set_oc s2 (updn (oc s2) n q0).
 Definition solver_add_var (n : name) (s : st) : st := set_vin s (updn (vin s) n true).
@@ -321,7 +324,8 @@ Definition remove_rxn_content (r : Z) (orphans : bool) (s : st) : st :=
        (fun m => min s m && negb (gone m))
        (fun m r' => if (r' =? r) && negb (isz (sto s r m)) then false else back s m r')
        (fun n => if fst n =? r then false else vin s n)
-       (vlb s) (vub s)
+       (fun n => if fst n =? r then NInf else vlb s n)
+       (fun n => if fst n =? r then PInf else vub s n)
        (fun m => cin s m && negb (gone m))
        (fun m n => if (fst n =? r) || gone m then q0 else co s m n)
        (fun n => if fst n =? r then q0 else oc s n)
@@ -337,7 +341,8 @@ Definition remove_met_d_content (m : Z) (s : st) : st :=
        (upd (min s) m false)
        (fun m' r => if dead r && negb (isz (sto s r m')) then false else back s m' r)
        (fun n => vin s n && negb (dead (fst n)))
-       (vlb s) (vub s)
+       (fun n => if dead (fst n) then NInf else vlb s n)
+       (fun n => if dead (fst n) then PInf else vub s n)
        (upd (cin s) m false)
        (fun m' n => if (m' =? m) || dead (fst n) then q0 else co s m' n)
        (fun n => if dead (fst n) then q0 else oc s n)
@@ -372,7 +377,7 @@ Definition run_undo (u : undo) (s : st) : st :=
   | USolverAddVars r => solver_add_var (R r) (solver_add_var (F r) s)
   | USolverRemoveCons m => solver_remove_cons m s
   | USolverAddCons m => solver_add_cons m s
-  | UMetsISub m => set_min s (upd (min s) m false)
+  | UMetsISub m => set_back (set_min s (upd (min s) m false)) (upd (back s) m (fun _ => false))
   | UMetsIAdd m => set_min s (upd (min s) m true)
   | URxnOut r => set_rin s (upd (rin s) r false)
   | URxnIn r => set_rin s (upd (rin s) r true)
